@@ -76,7 +76,7 @@ def check_item(item):
         for p in pats:
             cores.append(U.m_core(p))
             owner.append(i)
-            prio_of.append((prios[i] if (greedy and prios) else 0))
+            prio_of.append(((prios[i] or 0) if (greedy and prios) else 0))
     has_else = variant in ("else", "elsex", "elsepat", "mixelse")
     else_owner = len(clauses) - 1 if variant == "elsepat" else None
     reps = U.reps_of(stmts)
@@ -306,6 +306,11 @@ def items_for(tier, seed):
             items.append((s, variant, False, None))
         for pr in (None, tuple(range(1, n + 1)), tuple(reversed(range(1, n + 1)))):
             for variant in ("plain", "else", "lexer", "mixbody", "mixelse"):
+                items.append((s, variant, True, pr))
+        # annotated and un-annotated clauses mixed (an un-annotated clause has priority 0 wherever it stands)
+        mixed = [tuple(range(n - 1, 0, -1)) + (None,), (None,) + tuple(range(1, n)), tuple((None if k % 2 else 3 - k // 2) for k in range(n))]
+        for pr in mixed:
+            for variant in ("plain", "lexer"):
                 items.append((s, variant, True, pr))
     return [(a, b, c, d, (i % (9 if tier == "quick" else 6)) == seed % (9 if tier == "quick" else 6)) for i, (a, b, c, d) in enumerate(items)]
 
